@@ -382,7 +382,7 @@ def apply_ops(lens, ops, spec, rec):
         name = op[0]
         rec.event('history_operations')
         if name == 'set_radius':
-            lens.set_radius(op[1], op[2])
+            lens.set_radius(L.fnum(op[1]), op[2])
         elif name == 'set_conic':
             lens.set_conic(op[1], op[2])
         elif name == 'set_thickness':
